@@ -1,5 +1,5 @@
 import NmlVerif.Proofs.Groups
-import NmlVerif.Proofs.GroupsGen
+import NmlVerif.Proofs.GroupsArg
 set_option linter.unusedSimpArgs false
 set_option linter.unusedVariables false
 /-!
@@ -8,8 +8,10 @@ set_option linter.unusedVariables false
 Model: `NmlVerif.Groups` (`Model/Groups.lean`), tied to `Cell.get_all_segments_in_group`, `Cell.get_segment_group`,
 `Cell.optimise_segment_group(s)` (`neuroml/nml/helper_methods.py` and the copy in `neuroml/nml/nml.py`)
 (1) by translation: `Gen/Groups.lean` is rewritten from the Python source on every run
-(`translators/groups_extract.py`) and the theorems `c14_gen_*` below prove the generated definitions equal to the
-model for all inputs; `c14_main` states the whole property on the generated definitions;
+(`translators/groups_extract.py`) and the theorems `c14_gen_*` in `Props/C14Gen.lean` prove the generated definitions
+equal to the model for all inputs; `c14_main` (there) states the whole property on the generated definitions. THIS
+module does not import the generated file: its theorems are about the hand model only and stay discharged whatever
+the translator writes;
 (2) by the correspondence check `harness/props/c14.py` (generated cells, built in memory and after an XML round
 trip, real library vs `Drivers/C14.lean`).
 
@@ -88,7 +90,7 @@ theorem c14_resolve_exact (c : Cell) (hac : Acyclic c) (hd : NoDangling c) (f g 
 
 /-- every recursive call, and the default call with a group id, is `resolve` -/
 theorem c14_resolve_arg_id (c : Cell) (f g : Nat) : resolveArg c f (.str g) true = resolve c f g :=
-  NmlVerif.Gen.Groups.resolveArg_str_true c f g
+  resolveArg_str_true c f g
 
 /-- asking with the `SegmentGroup` object the id denotes gives the same answer as asking with the id -/
 theorem c14_resolve_arg_object (c : Cell) (f g : Nat) (G : Group) (aam : Bool) (hG : findG c.groups g = some G) :
@@ -270,85 +272,6 @@ theorem c14_optimiseAll_total (key : Nat → Nat) (c : Cell) (f : Nat) (hac : Ac
   exact foldOpt_total key f r (fun g => by have := hb g; omega) (c.groups.map (·.id)) c hr hd
     (fun g hg => ⟨fun e => hne (e ▸ hg), hg⟩)
 
-/-! ### the translation of today's source equals the model (`Gen/Groups.lean` is rewritten from
-`neuroml/nml/nml.py` and `helper_methods.py` by `translators/groups_extract.py` on every run) -/
-
-open NmlVerif.Gen.Groups in
-/-- `Cell.get_all_segments_in_group`, as translated, is `resolveArg`: for every cell, argument, flag and depth -/
-theorem c14_gen_resolve (fuel : Nat) (c : Cell) (a : Arg) (aam : Bool) :
-    get_all_segments_in_group fuel c a aam = resolveArg c fuel a aam := gen_resolve fuel c a aam
-
-open NmlVerif.Gen.Groups in
-/-- `Cell.get_segment_group`, as translated, returns the position of the first group with the id (a non-empty
-    string), which is the group `findG` finds and `setGroup` replaces -/
-theorem c14_gen_get_segment_group (c : Cell) (g : Nat) :
-    (get_segment_group c g = if g = emptyId then .error .notFound else
-      match firstIdx c.groups g with
-      | some k => .ok k
-      | none => .error .notFound) ∧
-    (firstIdx c.groups g = none → findG c.groups g = none) ∧
-    (∀ k, firstIdx c.groups g = some k → findG c.groups g = some (grp c k) ∧
-      ∀ G', c.groups.set k G' = replaceFirst c.groups g G') :=
-  ⟨gen_get_segment_group c g, firstIdx_none c.groups g,
-   fun k hk => ⟨(firstIdx_some c.groups g k hk).1, fun G' => ((firstIdx_some c.groups g k hk).2 G').1⟩⟩
-
-open NmlVerif.Gen.Groups in
-/-- `Cell.optimise_segment_group`, as translated, is `optimiseGroup` -/
-theorem c14_gen_optimise_segment_group (key : Nat → Nat) (fuel : Nat) (c : Cell) (g : Nat) :
-    optimise_segment_group key fuel c g = optimiseGroup key c fuel g := gen_optimise_segment_group key fuel c g
-
-open NmlVerif.Gen.Groups in
-/-- `Cell.optimise_segment_groups`, as translated, is `optimiseAll` -/
-theorem c14_gen_optimise_segment_groups (key : Nat → Nat) (fuel : Nat) (c : Cell) :
-    optimise_segment_groups key fuel c = optimiseAll key c fuel := gen_optimise_segment_groups key fuel c
-
-open NmlVerif.Gen.Groups in
-/-- **C14, on the translated source, in one statement.** For every cell with an acyclic include graph (no dangling
-    include, no empty group id; any overlap, duplicates, number of includes; any tie-breaking sort key) and a recursion
-    depth allowed above the number of groups: (1) `get_all_segments_in_group` of every known group returns exactly the
-    segments reachable through members and, transitively, includes, each once; (2) `optimise_segment_groups()`
-    returns a cell in which the reachable set of EVERY group is what it was, every group is minimal (no duplicate
-    member, no duplicate include, no member supplied by an include), every group still resolves to the same set, and
-    (3) a second `optimise_segment_groups()` returns that same cell. -/
-theorem c14_main (key : Nat → Nat) (c : Cell) (f : Nat) (hac : Acyclic c) (hd : NoDangling c)
-    (hne : emptyId ∉ c.groups.map (·.id)) (hf : c.groups.length < f) :
-    (∀ g, (lookup c g).isSome → ∃ l, get_all_segments_in_group f c (.str g) true = .ok l ∧
-        (∀ s, s ∈ l ↔ InCl c g s) ∧ ((findG c.groups g).isSome ∨ c.segs.Nodup → l.Nodup)) ∧
-    ∃ c', optimise_segment_groups key f c = .ok c' ∧
-      (∀ h s, InCl c' h s ↔ InCl c h s) ∧
-      (∀ g, Minimal c' g) ∧
-      (∀ g l, get_all_segments_in_group f c (.str g) true = .ok l →
-        ∃ l', get_all_segments_in_group f c' (.str g) true = .ok l' ∧ ∀ s, s ∈ l' ↔ s ∈ l) ∧
-      optimise_segment_groups key f c' = .ok c' := by
-  simp only [c14_gen_resolve, c14_gen_optimise_segment_groups, c14_resolve_arg_id]
-  refine ⟨fun g hg => c14_resolve_exact c hac hd f g hf hg, ?_⟩
-  obtain ⟨c', hc'⟩ := c14_optimiseAll_total key c f hac hd hf hne
-  have hfr := c14_optimiseAll_frame key c f c' hc'
-  have hpres := c14_optimiseAll_preserves key c f c' hc'
-  refine ⟨c', hc', hpres, c14_optimiseAll_minimal key c f c' hc', ?_, c14_optimiseAll_idempotent key c f c' hc'⟩
-  intro g l hl
-  have hlen : c'.groups.length < f := by
-    have := congrArg List.length hfr.2.1
-    simp only [List.length_map] at this
-    omega
-  have hsome : (lookup c' g).isSome := by
-    have h1 := (c14_resolve_returns_only_if c f g l hl g (Reach.refl g)).1
-    -- same ids, same implicit `all`
-    unfold lookup at h1 ⊢
-    cases hG : findG c.groups g with
-    | some G =>
-      obtain ⟨G', hG'⟩ := findG_of_mem_ids (gs := c'.groups) (by rw [hfr.2.1]; exact findG_some_mem_ids hG)
-      rw [hG']; rfl
-    | none =>
-      rw [hG] at h1
-      cases hG' : findG c'.groups g with
-      | some G' => rfl
-      | none => simpa using h1
-  obtain ⟨l', hl', hcl', _⟩ := c14_resolve_exact c' (hfr.2.2.1 hac) (hfr.2.2.2 hd) f g hlen hsome
-  refine ⟨l', hl', fun s => ?_⟩
-  rw [hcl' s, resolve_closure c f g l hl s]
-  exact hpres g s
-
 /-! ### recursion depth: an interpreter with a fixed recursion limit (known finding `C14:recursion-limit`)
 
 The theorems above let the recursion go as deep as the cell has groups. CPython stops at `sys.getrecursionlimit()`
@@ -402,16 +325,8 @@ example : optimiseAll (fun x => x) exCell 6 =
 example : optimiseGroup (fun x => x) ⟨[0, 1, 2], [⟨5, [0], []⟩, ⟨6, [1], []⟩, ⟨7, [0, 1, 2], [5, 6]⟩]⟩ 4 7 =
     .ok ⟨[0, 1, 2], [⟨5, [0], []⟩, ⟨6, [1], []⟩, ⟨7, [2], [5, 6]⟩]⟩ := by decide
 
--- the hypotheses of `c14_main` / `c14_depth_partial` hold on `exCell` (depth allowed 6 > 5 groups; rank of group 10 is 3)
+-- the hypotheses of `c14_main` (`Props/C14Gen.lean`) / `c14_depth_partial` hold on `exCell` (depth allowed 6 > 5 groups; rank of group 10 is 3)
 example : Ranked exCell exRank ∧ exRank 10 < 4 := ⟨ranked_of_check exCell exRank (by decide), by decide⟩
--- the translated source run on it (the generated definitions are executable)
-example : NmlVerif.Gen.Groups.get_all_segments_in_group 6 exCell (.str 10) true = .ok [3, 0, 1, 2, 4] := by decide
-example : NmlVerif.Gen.Groups.get_segment_group exCell 12 = .ok 2 ∧
-    NmlVerif.Gen.Groups.get_segment_group exCell emptyId = .error .notFound ∧
-    NmlVerif.Gen.Groups.get_segment_group exCell 99 = .error .notFound := by decide
-example : NmlVerif.Gen.Groups.optimise_segment_groups (fun x => x) 6 exCell =
-    .ok ⟨[0, 1, 2, 3, 4], [⟨10, [], [11, 12, 14]⟩, ⟨11, [0], [13]⟩, ⟨12, [1], []⟩, ⟨13, [3], []⟩, ⟨14, [], [0]⟩]⟩ := by
-  decide
 -- ties of the natural-sort key (`g1`/`g01`): includes 12 and 11 have the same key and keep their list order
 example : optimiseGroup (fun _ => 0) exCell 6 10 =
     .ok ⟨[0, 1, 2, 3, 4], [⟨10, [], [12, 11, 14]⟩, ⟨11, [0], [13]⟩, ⟨12, [1, 1], []⟩, ⟨13, [3], []⟩, ⟨14, [4, 4], [0]⟩]⟩ := by
